@@ -552,10 +552,39 @@ fn run_vm(c: &VmCase, obs: &mut Obs) -> Check {
     obs.class(len_class(len));
     obs.class(if is_wrong { "output:wrong-id-or-state-root" } else { "output:formula" });
 
-    let create = TransactionBuilder::create(Witness::from(code.clone()), salt, to_storage_slots(&slots))
-        .add_fee_input()
-        .add_output(Output::contract_created(ContractId::new(out_id), Bytes32::new(out_state)))
-        .finalize();
+    let create = if c.code_len % 2 == 1 {
+        // same transaction reached by editing a finalized (already precomputed) Create: built with
+        // another salt and its own formula id, then salt and output are replaced
+        obs.class("create:edited-after-finalize");
+        let mut other_salt = c.salt;
+        other_salt[0] ^= 0x55;
+        let other_id = ref_contract_id(&other_salt, &ref_code_root(&code), &state_root);
+        let mut t = TransactionBuilder::create(Witness::from(code.clone()), Salt::new(other_salt), to_storage_slots(&slots))
+            .add_fee_input()
+            .add_output(Output::contract_created(ContractId::new(other_id), Bytes32::new(state_root)))
+            .finalize();
+        *fuel_tx::field::Salt::salt_mut(&mut t) = salt;
+        for o in fuel_tx::field::Outputs::outputs_mut(&mut t).iter_mut() {
+            if matches!(o, Output::ContractCreated { .. }) {
+                *o = Output::contract_created(ContractId::new(out_id), Bytes32::new(out_state));
+            }
+        }
+        // refresh the cache and sign again (the id changed with the salt); the fee input of
+        // `add_fee_input` is owned by the key drawn from StdRng::seed_from_u64(2322)
+        {
+            use rand::SeedableRng;
+            let chain = ConsensusParameters::standard().chain_id();
+            fuel_tx::Cacheable::precompute(&mut t, &chain).map_err(|e| Failure::new("harness-precompute", format!("{e:?}")))?;
+            let secret = fuel_crypto::SecretKey::random(&mut rand::rngs::StdRng::seed_from_u64(2322u64));
+            fuel_tx::Signable::sign_inputs(&mut t, &secret, &chain);
+        }
+        t
+    } else {
+        TransactionBuilder::create(Witness::from(code.clone()), salt, to_storage_slots(&slots))
+            .add_fee_input()
+            .add_output(Output::contract_created(ContractId::new(out_id), Bytes32::new(out_state)))
+            .finalize()
+    };
     let checked = create.into_checked(Default::default(), &params);
     if is_wrong {
         // the validity rule must refuse any output that is not the formula's
